@@ -540,3 +540,5 @@ def run(tier, seed):
 
 
 RULE += (' One comparator object serving vectors of changing length (every order of lengths 1..4, plus 5) for Pareto and five epsilon lists; comparators reached through constructor options (ParetoDominance(epsilons=...), the two comparators a TournamentSelector builds) over A5^1, A5^2, V3^3.')
+
+RULE += (' Beyond small: vectors of length 13..34, 63..65, 100, 127..129, 255..257, 1000..1025 that differ from a constant at positions around the powers of two (values 0, 2, one ulp, 1-1e-9, +-1e39, 1e-46); designs of several problems (all pairs of six criteria sets) evaluated in one process.')
